@@ -20,6 +20,8 @@ a91d27e C17
 199f3bd C11
 386bda6 C15
 473ad6d C08
+fbabcdd C15
+0a339c5 C15
 MAP
 for m in mutants/${1:-*}; do
   b=$(basename $m); b=${b%.*}
